@@ -288,6 +288,13 @@ class FailPoints:
     def on_line(self, code, line):
         if COMPILER_SUFFIX not in code.co_filename:
             return self.mon.DISABLE
+        # Frames of generator-based context managers (track_hugr_side_effects, set_monomorphized_args,
+        # _new_dfcontainer, ...) are not failpoints: between their set-up statement and `try:` or
+        # inside their `finally:` no real operation can raise; injecting there manufactures leaked
+        # save/restore state the program cannot reach (seen: a fault on the `try:` line right after
+        # `Hugr.add_node = ...` left the monkeypatch installed).  Everything they call still is.
+        if code.co_flags & 0x20:  # CO_GENERATOR
+            return self.mon.DISABLE
         self.count += 1
         if self.armed_at is not None and self.count == self.armed_at:
             self.fired = True
